@@ -1,7 +1,8 @@
-/- Units commands (C08, C12, C13, C18): `uparse`, `uprint`, `utree`, `udefine`. -/
+/- Units commands (C08, C12, C13, C18): `uparse`, `uprint`, `utree`, `udefs`. -/
 import QExPy.Driver.Json
 import QExPy.Model.Units
 import QExPy.Model.UnitParse
+import QExPy.Model.UnitDefs
 namespace QExPy.Drv
 open Lean QExPy QExPy.U
 
@@ -43,6 +44,22 @@ def getDefs (j : Json) : R Defs := do
     d := define d s.toList u
   pure d
 
+/-- [["define", name, expr] | ["clear"], ...] : a define/clear history as the user typed it -/
+def getReqs (j : Json) : R (List DefReq) := do
+  (← getArr j).toList.mapM fun e => do
+    let t ← getArr e
+    match (← getStr t[0]!) with
+    | "define" => pure (DefReq.define (← getStr t[1]!).toList (← getStr t[2]!).toList)
+    | "clear" => pure DefReq.clear
+    | k => throw s!"unknown request {k}"
+
+/-- definitions of a command: `reqs` (history of requests, run by `runReqs`: rejected requests
+    leave the definitions unchanged) or, when absent, `defs` (already parsed, all accepted) -/
+def getDefsOrReqs (j : Json) : R Defs := do
+  match j.getObjVal? "reqs" with
+  | .ok r => pure (runReqs [] (← getReqs r))
+  | .error _ => getDefs (fieldD j "defs" (Json.arr #[]))
+
 private partial def getTree (j : Json) : R UTree := do
   let a ← getArr j
   let tag ← getStr a[0]!
@@ -83,7 +100,7 @@ def cmdUPrint (j : Json) : R Json := do
 /-- {"cmd":"utree","defs":[..],"tree":..,"syms":[..]} → `_unit` of the result, number of
     mismatch warnings, and the dimensional-analysis value `dimT` at every symbol of `syms` -/
 def cmdUTree (j : Json) : R Json := do
-  let defs ← getDefs (fieldD j "defs" (Json.arr #[]))
+  let defs ← getDefsOrReqs j
   let t ← getTree (← field j "tree")
   let syms ← (← getArr (fieldD j "syms" (Json.arr #[]))).toList.mapM getStr
   let dims := syms.map fun s =>
@@ -96,7 +113,15 @@ def cmdUTree (j : Json) : R Json := do
       ("expanded", Json.arr (expanded u).toArray), ("dim", Json.arr dims.toArray)])
   | none => pure (obj [("ok", Json.bool false), ("dim", Json.arr dims.toArray)])
 
+/-- {"cmd":"udefs","reqs":[..]} → per request: accepted?; the definitions after the history -/
+def cmdUDefs (j : Json) : R Json := do
+  let reqs ← getReqs (← field j "reqs")
+  let defs := runReqs [] reqs
+  pure (obj [("accepted", Json.arr (reqs.map fun r => Json.bool r.accepted).toArray),
+    ("defs", Json.arr (defs.map fun (n, u) =>
+      Json.arr #[Json.str (String.ofList n), putUnits u]).toArray)])
+
 def unitsCmds : List (String × (Json → R Json)) :=
-  [("uparse", cmdUParse), ("uprint", cmdUPrint), ("utree", cmdUTree)]
+  [("uparse", cmdUParse), ("uprint", cmdUPrint), ("utree", cmdUTree), ("udefs", cmdUDefs)]
 
 end QExPy.Drv
